@@ -185,6 +185,19 @@ impl Report {
             "shard": self.args.shard, "tier": self.args.tier,
             "witness": witness,
         });
+        // keep the first witness of a signature (it matches the detail
+        // kept in the report)
+        let path = if path.exists() {
+            let mut n = 2;
+            loop {
+                let p = dir.join(format!(
+                    "{}_{}_s{}_{}_{n}.json", self.check, safe,
+                    self.args.seed, self.args.shard
+                ));
+                if !p.exists() || n > 20 { break p }
+                n += 1;
+            }
+        } else { path };
         let _ = std::fs::write(
             &path, serde_json::to_vec_pretty(&doc).unwrap()
         );
